@@ -71,5 +71,6 @@ class Prop(G.InputPropBase):
         for i in range(500 if tier == "quick" else 20000):
             data = G.malformed(rng)
             cs.append(Case("I " + G.chunkings(rng, data, ("whole", "random")[i % 2]), oracle=False, tag="malformed"))
+        cs += G.repetition_cases(rng, tier, G.c05_cfg)
         cs += G.numeric_sweep("C05")
         return cs
